@@ -68,6 +68,7 @@ func init() {
 		"Structural necessary conditions of 'MVT round-trips and marshals deterministically': no map iteration order can reach the output of Marshal (decided for all inputs and all map orders); every collection member is encoded (run-once loops); member loops cover all features/parts. Zigzag arithmetic and ring regrouping are NOT decided.",
 		ruleMapOrder([]string{"encoding/mvt.Marshal", "encoding/mvt.MarshalGzipped"}, []string{"encoding/mvt/vectortile"}, 1),
 		ruleRunOnce(inMVT, 30),
+		ruleLoopAlias(inMVT, 20),
 		ruleMemberLoops(inMVT, 18, 0),
 	)
 
@@ -81,7 +82,7 @@ func init() {
 	register("C05",
 		"Structural necessary conditions of 'decoders are total and allocation-bounded': no guard arithmetic on a decoded count can wrap in a narrow unsigned type. (Further clauses are added by the shape interpreter.)",
 		ruleNarrowArith(inDecoders, 2),
-		ruleShapeFaults(shapeConfig{label: "hostile input", keep: func(string) bool { return false }, extra: hostileEntries, floor: 14,
+		ruleShapeFaults(shapeConfig{label: "hostile input", keep: func(string) bool { return false }, extra: hostileEntries, floor: 21,
 			override: hostileParams(40, 24), hostile: true, lim: Limits{MaxStates: 6000, MaxSteps: 20000, MaxVisits: 3, MaxDepth: 40}}),
 	)
 
@@ -168,6 +169,7 @@ func init() {
 		ruleRunOnce(notGenerated, 200),
 		ruleShapeFaults(shapeConfig{label: "generic entries", keep: notGenerated, onlyGeneric: true, floor: 41}),
 		ruleNoWrite("observers", observerEntries, 25, 30),
+		ruleDiscardedResult(notGenerated),
 	)
 }
 
@@ -352,6 +354,11 @@ func hostileParams(maxBytes, maxStr int) paramOverride {
 				return SliceV{Arr: it.newCell(s, arr), Hi: n, Cap: n}
 			}
 		}
+		if sl, ok := t.Underlying().(*types.Slice); ok && par.Name() == "buf" && strings.Contains(FuncKey(fn), ".read") {
+			if b, ok := sl.Elem().Underlying().(*types.Basic); ok && b.Kind() == types.Uint8 {
+				return []argChoice{{"buf=[8]byte", func(it *Interp, s *State) AV { v := byteSlice(8)(it, s); it.inputLen = 0; return v }}}
+			}
+		}
 		if sl, ok := t.Underlying().(*types.Slice); ok {
 			if b, ok := sl.Elem().Underlying().(*types.Basic); ok && b.Kind() == types.Uint8 {
 				var out []argChoice
@@ -425,4 +432,8 @@ var hostileEntries = []string{
 	"encoding/internal/wkbcommon.ScanCollection",
 	"encoding/internal/wkbcommon.(*Decoder).Decode", "encoding/wkb.(*Decoder).Decode", "encoding/ewkb.(*Decoder).Decode",
 	"encoding/mvt.Unmarshal",
+	// the per-kind stream readers, so that every one is explored whatever the search order of Decode
+	"encoding/internal/wkbcommon.readPoint", "encoding/internal/wkbcommon.readMultiPoint", "encoding/internal/wkbcommon.readLineString",
+	"encoding/internal/wkbcommon.readMultiLineString", "encoding/internal/wkbcommon.readPolygon", "encoding/internal/wkbcommon.readMultiPolygon",
+	"encoding/internal/wkbcommon.readCollection",
 }
